@@ -1,0 +1,174 @@
+//go:build verif
+
+// Contracts for package packetmap, checked by /verif (gvc).  This file
+// contains no declarations; it is compiled only with the verif build tag.
+
+package packetmap
+
+//@ -- mod-2^16 order used by the code; compare must equal it
+//@ spec cmp16(a uint16, b uint16) int = a == b ? 0 : (((b - a) & 0x8000) != 0 ? 1 : -1)
+//@ -- source seqno s lies in interval e / target seqno t lies in the image of e
+//@ spec covers(e entry, s uint16) bool = cmp16(s, e.first) >= 0 && cmp16(s, e.first + e.count) < 0
+//@ spec tcovers(e entry, t uint16) bool = cmp16(t, e.first + e.delta) >= 0 && cmp16(t, e.first + e.delta + e.count) < 0
+//@ spec last(m *Map) entry = m.entries[m.lastEntry]
+//@
+//@ -- ghost state (specification only)
+//@ --   dropped: packets withheld since the last resynchronisation
+//@ --   started: some packet has been mapped since creation
+//@ --   lastOut: outgoing number given to the newest accepted packet
+//@ ghost field Map.dropped uint16
+//@ ghost field Map.started bool
+//@ ghost field Map.lastOut uint16
+//@
+//@ spec shape(m *Map) bool = len(m.entries) <= 128
+//@      && (len(m.entries) == 0 ==> m.lastEntry == 0 && m.delta == 0 && m.pidDelta == 0 && isnil(m.entries))
+//@      && (len(m.entries) > 0 ==> int(m.lastEntry) < len(m.entries))
+//@ -- I_tail: the newest interval ends exactly where the withheld packets begin
+//@ spec tail(m *Map) bool = len(m.entries) > 0 ==> last(m).first + last(m).count + (last(m).delta - m.delta) == m.next
+//@ spec wf(m *Map) bool = shape(m) && tail(m) && m.delta == 0 - m.dropped
+//@      && (!m.started ==> m.next == 0 && isnil(m.entries))
+//@ -- the next outgoing number is the one after the newest forwarded packet
+//@ spec contiguous(m *Map) bool = m.started ==> m.next + m.delta == m.lastOut + 1
+//@
+//@ func compare
+//@   safe
+//@   inline
+//@   props C01 C03 C12
+//@   modifies nothing
+//@   ensures spec: result == cmp16(s1, s2)
+//@
+//@ func (*Map).reset
+//@   safe
+//@   props C01 C12
+//@   requires nonnil: m != nil
+//@   modifies m.next, m.nextPid, m.delta, m.pidDelta, m.lastEntry, m.entries
+//@   ensures zeroed: m.next == 0 && m.nextPid == 0 && m.delta == 0 && m.pidDelta == 0 && m.lastEntry == 0
+//@   ensures emptied: isnil(m.entries) && len(m.entries) == 0
+//@
+//@ func (*Map).Drop
+//@   safe
+//@   props C01 C02 C04 C12
+//@   requires nonnil: m != nil
+//@   requires unlocked: !held(m.mu)
+//@   requires wf: wf(m) && contiguous(m)
+//@   modifies m.next, m.nextPid, m.delta, m.pidDelta, m.entries, held(m.mu), m.dropped, m.started, m.lastOut
+//@   ghost m.dropped = result ? old(m.dropped) + 1 : old(m.dropped)
+//@   ghost m.lastOut = (result && !old(m.started)) ? seqno - 1 : old(m.lastOut)
+//@   ghost m.started = old(m.started) || result
+//@   ensures unlocked: !held(m.mu)
+//@   ensures wf: wf(m) && contiguous(m)
+//@   ensures iff-next: result == (seqno == old(m.next))
+//@   ensures refused-unchanged: !result ==> m.next == old(m.next) && m.nextPid == old(m.nextPid) && m.delta == old(m.delta)
+//@        && m.pidDelta == old(m.pidDelta) && same(m.entries, old(m.entries))
+//@   ensures accepted: result ==> m.next == seqno + 1 && m.delta == old(m.delta) - 1 && m.nextPid == pid
+//@        && m.pidDelta == old(m.pidDelta) + (pid - old(m.nextPid)) && m.dropped == old(m.dropped) + 1
+//@   ensures first-drop-interval: result && len(old(m.entries)) == 0 ==> len(m.entries) == 1 && m.lastEntry == 0
+//@        && m.entries[0].first == seqno - 8192 && m.entries[0].count == 8192 && m.entries[0].delta == 0 && m.entries[0].pidDelta == 0
+//@   ensures table-kept: len(old(m.entries)) > 0 ==> same(m.entries, old(m.entries))
+//@   -- the packet just withheld is outside the newest interval (C01: never forwarded later, newest-interval part)
+//@   ensures withheld-not-mapped: result && last(m).delta != m.delta && last(m).count <= 0x4000 && last(m).delta - m.delta <= 0x4000 ==> !covers(last(m), seqno)
+//@
+//@ func (*Map).direct
+//@   safe
+//@   props C01 C03 C12
+//@   requires nonnil: m != nil
+//@   requires shape: shape(m)
+//@   modifies nothing
+//@   invariant loop 1 inrange: int(i) < len(m.entries)
+//@   invariant loop 1 newest-first: i == m.lastEntry || cmp16(seqno, last(m).first) < 0
+//@   witness k = i
+//@   ensures hit: result0 ==> exists k int :: 0 <= k && k < len(m.entries) && covers(m.entries[k], seqno)
+//@        && result1 == seqno + m.entries[k].delta && result2 == m.entries[k].pidDelta
+//@   ensures miss: !result0 ==> result1 == 0 && result2 == 0
+//@   ensures newest: len(m.entries) > 0 && covers(last(m), seqno) ==> result0 && result1 == seqno + last(m).delta && result2 == last(m).pidDelta
+//@   ensures empty: len(m.entries) == 0 ==> !result0
+//@
+//@ spec newfirst(e entry, seqno uint16, delta uint16) uint16 =
+//@      (e.delta - delta < 8192 && cmp16(e.first + e.count + (e.delta - delta), seqno) < 0) ? e.first + e.count + (e.delta - delta) : seqno
+//@
+//@ func addMapping
+//@   safe
+//@   props C01 C12
+//@   requires nonnil: m != nil
+//@   requires shape: shape(m)
+//@   modifies m.lastEntry, m.entries, full(m.entries)
+//@   ensures noop: len(old(m.entries)) == 0 ==> len(m.entries) == 0 && same(m.entries, old(m.entries)) && m.lastEntry == old(m.lastEntry)
+//@   ensures extend: len(old(m.entries)) > 0 && delta == old(last(m).delta) && pidDelta == old(last(m).pidDelta) ==>
+//@        same(m.entries, old(m.entries)) && m.lastEntry == old(m.lastEntry)
+//@        && last(m).first == old(last(m).first) && last(m).delta == delta && last(m).pidDelta == pidDelta
+//@        && last(m).count == seqno - old(last(m).first) + 1
+//@   ensures extend-others: len(old(m.entries)) > 0 && delta == old(last(m).delta) && pidDelta == old(last(m).pidDelta) ==>
+//@        (forall k int :: 0 <= k && k < len(m.entries) && k != int(m.lastEntry) ==> m.entries[k] == old(m.entries[k]))
+//@   ensures new-interval: len(old(m.entries)) > 0 && !(delta == old(last(m).delta) && pidDelta == old(last(m).pidDelta)) ==>
+//@        len(m.entries) == (len(old(m.entries)) < 128 ? len(old(m.entries)) + 1 : 128)
+//@        && int(m.lastEntry) == (len(old(m.entries)) < 128 ? len(old(m.entries)) : (old(m.lastEntry) == 127 ? 0 : int(old(m.lastEntry)) + 1))
+//@        && last(m).first == newfirst(old(last(m)), seqno, delta) && last(m).count == seqno - last(m).first + 1
+//@        && last(m).delta == delta && last(m).pidDelta == pidDelta
+//@   ensures new-interval-others: len(old(m.entries)) > 0 && !(delta == old(last(m).delta) && pidDelta == old(last(m).pidDelta)) ==>
+//@        (forall k int :: 0 <= k && k < len(old(m.entries)) && k != int(m.lastEntry) ==> m.entries[k] == old(m.entries[k]))
+//@   ensures shape: shape(m) || (len(m.entries) == 0)
+//@   ensures newest-ends-at-seqno: len(m.entries) > 0 ==> last(m).first + last(m).count == seqno + 1 && last(m).delta == delta
+//@
+//@ -- case analysis of Map on the pre-state
+//@ spec pristine(m *Map) bool = isnil(m.entries)
+//@ spec inorder(m *Map, s uint16) bool = cmp16(m.next, s) <= 0 && s - m.next <= 8192
+//@ spec late(m *Map, s uint16) bool = cmp16(m.next, s) > 0 && m.next - s <= 8192
+//@ spec jump(m *Map, s uint16) bool = !inorder(m, s) && !late(m, s)
+//@ spec pristine_updates(m *Map, s uint16) bool = cmp16(m.next, s) <= 0 || m.next - s > 8192
+//@
+//@ func (*Map).Map
+//@   safe
+//@   props C01 C02 C03 C04 C12
+//@   requires nonnil: m != nil
+//@   requires unlocked: !held(m.mu)
+//@   requires wf: wf(m) && contiguous(m)
+//@   modifies m.next, m.nextPid, m.delta, m.pidDelta, m.lastEntry, m.entries, full(m.entries), held(m.mu), m.dropped, m.started, m.lastOut
+//@   ghost m.dropped = (!old(pristine(m)) && old(jump(m, seqno))) ? 0 : old(m.dropped)
+//@   ghost m.lastOut = (!old(m.started) || (old(pristine(m)) ? old(pristine_updates(m, seqno)) : !old(late(m, seqno)))) ? result1 : old(m.lastOut)
+//@   ghost m.started = true
+//@   ensures unlocked: !held(m.mu)
+//@   ensures wf: wf(m)
+//@   -- after any accepted newest packet the next outgoing number follows it (fails for a fresh map, see known findings)
+//@   ensures contiguous: contiguous(m)
+//@   ensures pristine: old(pristine(m)) ==> result0 && result1 == seqno && result2 == 0 && pristine(m) && m.delta == 0
+//@        && m.next == (old(pristine_updates(m, seqno)) ? seqno + 1 : old(m.next))
+//@   ensures in-order: !old(pristine(m)) && old(inorder(m, seqno)) ==> result0 && result1 == seqno + old(m.delta) && result2 == old(m.pidDelta)
+//@        && m.next == seqno + 1 && m.nextPid == pid && m.delta == old(m.delta) && m.pidDelta == old(m.pidDelta)
+//@   -- C01: forwarded number = incoming number minus packets withheld so far
+//@   ensures number-is-source-minus-withheld: (old(pristine(m)) || old(inorder(m, seqno))) ==> result0 && result1 == seqno - old(m.dropped)
+//@   -- C01: unique, ordered, no gap for withheld packets: the number is the successor of the last one given out,
+//@   --      plus one for every packet that has not arrived (yet)
+//@   ensures gap-free: old(m.started) && old(inorder(m, seqno)) ==> result1 == old(m.lastOut) + 1 + (seqno - old(m.next))
+//@   ensures jump: !old(pristine(m)) && old(jump(m, seqno)) ==> result0 && result1 == seqno && result2 == 0
+//@        && m.next == seqno + 1 && m.nextPid == pid && pristine(m) && m.dropped == 0
+//@   ensures late-unchanged: !old(pristine(m)) && old(late(m, seqno)) ==> m.next == old(m.next) && m.nextPid == old(m.nextPid)
+//@        && m.delta == old(m.delta) && m.pidDelta == old(m.pidDelta) && m.lastEntry == old(m.lastEntry) && same(m.entries, old(m.entries))
+//@        && m.lastOut == old(m.lastOut) && m.dropped == old(m.dropped)
+//@   -- C01: a late copy of a packet of the newest interval gets the number it got the first time
+//@   ensures late-newest: !old(pristine(m)) && old(late(m, seqno)) && old(covers(last(m), seqno)) ==> result0
+//@        && result1 == seqno + old(last(m).delta) && result2 == old(last(m).pidDelta)
+//@   ensures late-miss: !result0 ==> result1 == 0 && result2 == 0
+//@   -- C03: the newest interval records the packet just sent (so a NACK for its number finds it)
+//@   ensures newest-records: !old(pristine(m)) && old(inorder(m, seqno)) && int(last(m).count) >= 1 && int(last(m).count) <= 0x8000 ==>
+//@        covers(last(m), seqno) && tcovers(last(m), result1) && last(m).delta == old(m.delta) && last(m).pidDelta == old(m.pidDelta)
+//@
+//@ func (*Map).Reverse
+//@   safe
+//@   props C03 C12
+//@   requires nonnil: m != nil
+//@   requires unlocked: !held(m.mu)
+//@   requires wf: wf(m)
+//@   modifies held(m.mu)
+//@   invariant loop 1 inrange: int(i) < len(m.entries)
+//@   invariant loop 1 newest-first: i == m.lastEntry || cmp16(seqno, last(m).first + last(m).delta) < 0
+//@   invariant loop 1 locked: held(m.mu)
+//@   witness k = i
+//@   ensures unlocked: !held(m.mu)
+//@   ensures pristine: pristine(m) ==> result0 && result1 == seqno && result2 == 0
+//@   ensures hit: !pristine(m) && result0 ==> exists k int :: 0 <= k && k < len(m.entries) && tcovers(m.entries[k], seqno)
+//@        && result1 == seqno - m.entries[k].delta && result2 == m.entries[k].pidDelta
+//@   -- C03: the source packet named is one this table maps to exactly the requested number
+//@   ensures inverse: !pristine(m) && result0 ==> exists k int :: 0 <= k && k < len(m.entries) && covers(m.entries[k], result1)
+//@        && result1 + m.entries[k].delta == seqno && result2 == m.entries[k].pidDelta
+//@   ensures newest: !pristine(m) && tcovers(last(m), seqno) ==> result0 && result1 == seqno - last(m).delta && result2 == last(m).pidDelta
+//@   ensures miss: !result0 ==> result1 == 0 && result2 == 0
